@@ -869,6 +869,9 @@ func (x *agx) checkC48(w *agxWal) *vx.Fail {
 			sig = "accepted-sample-without-series-record/" + op
 			msg = fmt.Sprintf("after %s: committed %s is in the WAL but no series record for its ref precedes it in replay order. history %v; wal: %s", x.lastOp, id, x.hist, w.Digest)
 		}
+		if inmem != "" {
+			race = ""
+		}
 		if race != "" || inmem != "" {
 			sig = strings.TrimSuffix(sig, "/"+op) // the condition persists over later operations
 		}
